@@ -59,8 +59,10 @@ def neighbour(version):
 
 class Config(object):
     def __init__(self, k, m, s, start, with_neighbour, pkg=None,
-                 db='default'):
+                 db='default', v1=False):
         self.db = db                    # the database being upgraded
+        self.v1 = v1                    # stored signature is a legacy
+        #                                 (version 1, pickled) row
         self.k, self.m, self.s = k, m, s
         self.pkg = pkg                  # package name when != app label
         self.start = start              # 'empty' | 'v0' | 'e<j>'
@@ -73,6 +75,8 @@ class Config(object):
              'start': self.start, 'neighbour': self.nb, 'pkg': self.pkg}
         if self.db != 'default':
             d['db'] = self.db
+        if self.v1:
+            d['v1'] = True
         return d
 
     def kind(self):
@@ -136,6 +140,8 @@ def run_config(cfg, driver, stats, add):
                           ('empty', 'v0') else 'at-evolution', driver)
     if cfg.db != 'default':
         shape += '|db=' + cfg.db
+    if cfg.v1:
+        shape += '|stored-signature-v1'
     # ---- start state
     db = cfg.db
     B.fresh_db(db)
@@ -152,6 +158,18 @@ def run_config(cfg, driver, stats, add):
             add('C10|setup-fails|%s' % r0.exc_type, replay,
                 {'error': str(r0.exc)[:300]})
             return
+        if cfg.v1:
+            # what an old installation has: the signature row is a
+            # protocol-0 pickle of the version-1 dictionary
+            import pickle
+            from django.db import connections
+            from django_evolution.models import Version
+            v = Version.objects.using(db).order_by('-id')[0]
+            legacy = pickle.dumps(v.signature.serialize(sig_version=1),
+                                  protocol=0).decode('latin1')
+            with connections[db].cursor() as cur:
+                cur.execute('UPDATE django_project_version SET signature=%s '
+                            'WHERE id=%s', [legacy, v.pk])
     # ---- the hand-over run
     cfg.install_final()
     B.reset_globals()
@@ -284,11 +302,19 @@ def configs(tier):
                     # the hand-over of a non-default database
                     if st != 'empty' or tier != 'quick':
                         out.append((k, m, s, st, False, None, 'other'))
+                    # an installation whose stored signature is still a
+                    # version-1 pickle
+                    if st != 'empty':
+                        out.append((k, m, s, st, False, None, 'default',
+                                    True))
     return out
 
 
 def work(task):
-    if len(task) == 8:
+    v1 = False
+    if len(task) == 9:
+        k, m, s, st, nb, pkg, db, v1, driver = task
+    elif len(task) == 8:
         k, m, s, st, nb, pkg, db, driver = task
     else:
         k, m, s, st, nb, pkg, driver = task
@@ -307,7 +333,7 @@ def work(task):
             ent['count'] += 1
             if size < ent['size']:
                 ent.update(exemplar=replay, detail=detail, size=size)
-    cfg = Config(k, m, s, st, nb, pkg, db)
+    cfg = Config(k, m, s, st, nb, pkg, db, v1)
     run_config(cfg, driver, stats, add)
     stats['samples'].append(dict(cfg.describe(), driver=driver))
     return stats, viol
@@ -361,7 +387,7 @@ def replay(path):
     r = doc['replay']
     s = len(r['mark_applied'])
     cfg = Config(r['k'], r['m'], s, r['start'], r['neighbour'],
-                 r.get('pkg'), r.get('db', 'default'))
+                 r.get('pkg'), r.get('db', 'default'), r.get('v1', False))
     found = {}
 
     def add(fp, replay, detail):
